@@ -199,7 +199,7 @@ pub fn normalise_msg(m: &str) -> String {
 }
 
 static PANICS: Mutex<Vec<PanicRecord>> = Mutex::new(Vec::new());
-static PANIC_TX: Mutex<Option<crossbeam_channel::Sender<PanicRecord>>> = Mutex::new(None);
+static PANIC_TX: Mutex<Vec<crossbeam_channel::Sender<PanicRecord>>> = Mutex::new(Vec::new());
 
 pub fn install_panic_hook() {
     std::panic::set_hook(Box::new(|info| {
@@ -222,10 +222,9 @@ pub fn install_panic_hook() {
         if std::env::var("VERIF_QUIET_PANICS").is_err() {
             eprintln!("[panic] {} @ {}: {}", rec.thread, rec.file, rec.message.lines().next().unwrap_or(""));
         }
-        if let Ok(tx) = PANIC_TX.lock() {
-            if let Some(tx) = tx.as_ref() {
-                let _ = tx.send(rec.clone());
-            }
+        if let Ok(mut txs) = PANIC_TX.lock() {
+            // every live listener (one per in-process server) hears about the panic
+            txs.retain(|tx| tx.send(rec.clone()).is_ok());
         }
         if let Ok(mut p) = PANICS.lock() {
             p.push(rec);
@@ -233,8 +232,12 @@ pub fn install_panic_hook() {
     }));
 }
 
+/// Register a listener for panics on any thread (`None` is accepted and ignored: listeners
+/// disappear when their receiver is dropped).
 pub fn set_panic_channel(tx: Option<crossbeam_channel::Sender<PanicRecord>>) {
-    *PANIC_TX.lock().unwrap() = tx;
+    if let Some(tx) = tx {
+        PANIC_TX.lock().unwrap().push(tx);
+    }
 }
 
 pub fn take_panics() -> Vec<PanicRecord> {
